@@ -307,7 +307,7 @@ def check_tuned(rec, name, n, p, hp, level, seed, kind):
 def part_c(rec, tier, seed, errors):
     levels = [0.01, 0.1, 0.25, 0.5, 0.9] if tier == "quick" else [0.001, 0.01, 0.05, 0.1, 0.25, 1 / 3, 0.5, 0.75, 0.9, 0.99]
     ns = [4, 5, 6, 8, 11, 16, 30] if tier == "quick" else [2, 3, 4, 5, 6, 7, 8, 9, 11, 13, 16, 21, 30, 60]
-    seeds = 1 if tier == "quick" else 3
+    seeds = 1 if tier == "quick" else 2
     grids = {
         "MovingWindow": lambda n: [{"b": b} for b in (1, 2, 3, 5) if n >= 2 * b],
         "SeededBinarySegmentation": lambda n: [{"m": m, "M": M} for m in (1, 2, 3) for M in (2 * m, 4 * m, 50) if n >= 2 * m],
@@ -372,7 +372,7 @@ def check_monotone(kind, X, m, via):
 def part_d(rec, tier, seed, stats):
     rng = np.random.default_rng(seed + 1)
     n_full = 5 if tier == "quick" else 7
-    n_rand = 440 if tier == "quick" else 3600
+    n_rand = 440 if tier == "quick" else 3000
     n_max = 14 if tier == "quick" else 20
     found = []
 
